@@ -238,7 +238,7 @@ func (fv *FnV) moduleCall(st *State, callee *ssa.Function, args []ssa.Value, clo
 	if k != nil {
 		env := fv.calleeEnv(st, pre, callee, argTerms, clo, res)
 		for _, cl := range k.Ensures {
-			if strings.Contains(cl.Text, "callresult(") || strings.Contains(cl.Text, "called(") {
+			if cl.Local || strings.Contains(cl.Text, "callresult(") || strings.Contains(cl.Text, "called(") {
 				continue // talks about the callee's own intermediate values: proved there, not exported to callers
 			}
 			t, err := env.evalBool(cl.Text)
@@ -425,6 +425,9 @@ func (fv *FnV) libCall(st *State, callee *ssa.Function, cc *ssa.CallCommon, pos 
 		return str(n), nil
 	case "math.Mod":
 		fn := fv.uf("lib!math.Mod", []string{sF64, sF64}, sF64)
+		if fv.g.reg.has("spec!fmod") {
+			fn = "spec!fmod"
+		}
 		return &SV{v: Val{app(fn, arg(0), arg(1)), sF64}, typ: types.Typ[types.Float64]}, nil
 	case "(*sync.Mutex).Lock", "(*sync.RWMutex).Lock", "(*sync.RWMutex).RLock":
 		fv.lockOp(st, arg(0), true, pos, name)
@@ -779,7 +782,15 @@ func (fv *FnV) doReturn(st *State, ins *ssa.Return) error {
 	// postconditions
 	if fv.k != nil && fv.k.Trusted == "" {
 		env := fv.contractEnv(st, fv.entry, results)
+		env.asGoal = true
+		if li := fv.innermostLoop(); li != nil {
+			env.loop = li
+		}
 		for _, cl := range fv.k.Ensures {
+			if cl.Defn {
+				fv.g.definitional[fv.name+"."+cl.Label] = cl.Text
+				continue
+			}
 			t, err := env.evalBool(cl.Text)
 			if err != nil {
 				return fmt.Errorf("%s: ensures %s: %v", fv.name, cl.Label, err)
